@@ -402,10 +402,18 @@ func parentMain(p *Property, tier string, opt map[string]string) int {
 	for _, sh := range shards {
 		sh := sh
 		go func() {
-			cmd := exec.Command(self, "--prop", p.ID, "--tier", tier, "--worker", strings.Join(sh, ","), "--root", root)
-			cmd.Env = append(os.Environ(), "GOMAXPROCS=2")
-			cmd.Stderr = os.Stderr
-			out, err := cmd.Output()
+			run := func() ([]byte, error) {
+				cmd := exec.Command(self, "--prop", p.ID, "--tier", tier, "--worker", strings.Join(sh, ","), "--root", root)
+				cmd.Env = append(os.Environ(), "GOMAXPROCS=2")
+				cmd.Stderr = os.Stderr
+				return cmd.Output()
+			}
+			out, err := run()
+			if err != nil {
+				// a worker process that dies (e.g. killed under memory pressure) is run once more before its jobs count as failed
+				fmt.Fprintf(os.Stderr, "worker for jobs %v failed (%v), running it again\n", sh, err)
+				out, err = run()
+			}
 			ch <- wres{out, err}
 		}()
 	}
